@@ -57,6 +57,12 @@ def rule_route(ck, only=None):
     cases.append(("strings", '.ascii <101>', lambda sh: ins(sh, ".ascii", [sh.mk(T("AngleBracketedChar"), None, None, sh.number("101", 65))]), ("bytes", b"A")))
     cases.append(("rad50", '.rad50 "ab"<3>', lambda sh: ins(sh, ".rad50", [sh.mk(T("StringConcatenation"), None, None, [q(sh, "ab"), sh.mk(T("AngleBracketedChar"), None, None, sh.number("3", 3))])]), ("bytes", (1 * 1600 + 2 * 40 + 3).to_bytes(2, "little"))))
     cases.append(("rad50", '.rad50 "abcd"', lambda sh: ins(sh, ".rad50", [q(sh, "abcd")]), ("bytes", (1 * 1600 + 2 * 40 + 3).to_bytes(2, "little") + (4 * 1600).to_bytes(2, "little"))))
+    # a refused character: the error is reported and the words are still well-formed (the handler goes on; nothing dies in struct.pack)
+    cases.append(("rad50", '.rad50 "a"<77>"b"', lambda sh: ins(sh, ".rad50", [sh.mk(T("StringConcatenation"), None, None, [q(sh, "a"), sh.mk(T("AngleBracketedChar"), None, None, sh.number("77", 63)), q(sh, "b")])]),
+                  ("error+bytes", "value-out-of-bounds", (1 * 1600 + 0 * 40 + 2).to_bytes(2, "little"))))
+    cases.append(("rad50", '.rad50 <77><0><0>', lambda sh: ins(sh, ".rad50", [sh.mk(T("StringConcatenation"), None, None, [sh.mk(T("AngleBracketedChar"), None, None, sh.number(t_, v_)) for t_, v_ in (("77", 63), ("0", 0), ("0", 0))])]),
+                  ("error+bytes", "value-out-of-bounds", b"\x00\x00")))
+    cases.append(("rad50", '.rad50 "a?b"', lambda sh: ins(sh, ".rad50", [q(sh, "a?b")]), ("error+bytes", "invalid-character", (1 * 1600 + 0 * 40 + 2).to_bytes(2, "little"))))
     # data directives through operand cooking
     cases.append(("data", ".byte 1, 377", lambda sh: ins(sh, ".byte", [sh.number("1", 1), sh.number("377", 255)]), ("bytes", b"\x01\xff")))
     cases.append(("data", ".word 1, 177777", lambda sh: ins(sh, ".word", [sh.number("1", 1), sh.number("177777", 0xffff)]), ("bytes", b"\x01\x00\xff\xff")))
@@ -84,6 +90,16 @@ def rule_route(ck, only=None):
             if len(ps) != 1 or want[1] not in errs or (want[0] == "error" and ps[0].kind == "return" and ps[0].value[0] not in (None, b"")):
                 ck.violation("compiler::Compiler.compile_insn", f"the statement '{text}' (no such instruction or directive) gives {[(p.kind, repr(p.value)[:60]) for p in ps]} with diagnostics {errs}; "
                                                                 f"expected the error '{want[1]}' and no bytes: an unknown statement must not vanish silently", construct=f"route {text}")
+            continue
+        if want[0] == "error+bytes":
+            errs = [e[2] for p in ps for e in p.reported()]
+            r0 = ps[0].value[0] if len(ps) == 1 and ps[0].kind == "return" else None
+            got = bytes(r0) if isinstance(r0, (bytes, bytearray)) else getattr(r0, "value", r0)
+            if len(ps) != 1 or ps[0].kind != "return":
+                ck.incomplete(where, f"the statement '{text}'", ps)
+            elif want[1] not in errs or not isinstance(got, (bytes, bytearray)) or len(got) != len(want[2]):
+                # the run has failed, so WHICH word stands for the refused character is nobody's business; that there is one (the addresses after it, further diagnostics) is
+                ck.violation(where, f"the statement '{text}' gives {got!r} with diagnostics {errs}; expected the error '{want[1]}' and still {len(want[2])} bytes", construct=f"route {text}")
             continue
         if want[0] == "warning+bytes":
             warns = [e[2] for p in ps for e in p.effects if e[0] == "report" and e[1] == "warning"]
